@@ -3,11 +3,11 @@ import NumbatModel.Model.QtyProg
 /-! The `mprog` request of the C01 driver: a sequence of `let` right-hand sides in the program fragment of
 `Model/QtyProg.lean`, evaluated by `runProg`'s definitions at `Float`.
 
-  mprog D₁ D₂ …      with  D ::= (let E) | (fn ARITY E) | (fn ARITY (wheres E…) E)
+  mprog D₁ D₂ …      with  D ::= (let E) | (fn ARITY E) | (fn ARITY (wheres E…) E) | (struct)
                            E ::= (num BITS) | (unit name:m3:1/1) | (var I) | (loc I) | (call F E…) | (neg E) | (add E E) | (sub E E)
                                | (mul E E) | (div E E) | (pow E num/den) | (conv E E) | (lt E E) | (gt E E)
                                | (le E E) | (ge E E) | (eq E E) | (ne E E) | (and E E) | (or E E) | (not E)
-                               | (true) | (false) | (if E E E) | (lst CHAIN) | (head E) | (tail E) | (cons E E) | (len E)
+                               | (true) | (false) | (if E E E) | (lst CHAIN) | (mk CHAIN) | (get E I) | (head E) | (tail E) | (cons E E) | (len E)
 Answer: per definition the raw value of the new global (`q …` as `show_quantity`, `bool`) or `fn`, joined by
 ` ; `, ended by `err …` if a definition fails. -/
 open NumbatModel.Qty
@@ -31,6 +31,16 @@ def parseP (st : St) : Nat → List String → Option (PExpr Float × List Strin
       | _ => none
     | "(" :: "true" :: ")" :: rest => some (.blit true, rest)
     | "(" :: "false" :: ")" :: rest => some (.blit false, rest)
+    | "(" :: "mk" :: rest => do
+      let (a, rest) ← parseP st fuel rest
+      match rest with
+      | ")" :: rest => pure (.mk a, rest)
+      | _ => none
+    | "(" :: "get" :: rest => do
+      let (a, rest) ← parseP st fuel rest
+      match rest with
+      | i :: ")" :: rest => i.toNat?.map (fun i => (.get a i, rest))
+      | _ => none
     | "(" :: "lst" :: rest => do
       let (a, rest) ← parseP st fuel rest
       match rest with
@@ -107,29 +117,30 @@ def parseList (st : St) : Nat → List String → Option (List (PExpr Float) × 
     let (es, rest) ← parseList st fuel rest
     pure (e :: es, rest)
 
-def parseStmt (st : St) (toks : List String) : Option (PStmt Float × List String) :=
+def parseStmt (st : St) (toks : List String) : Option (Option (PStmt Float) × List String) :=
   match toks with
+  | "(" :: "struct" :: ")" :: rest => some (none, rest)
   | "(" :: "let" :: rest => do
     let (e, rest) ← parseP st (rest.length + 1) rest
     match rest with
-    | ")" :: rest => pure (.letv e, rest)
+    | ")" :: rest => pure (some (.letv e), rest)
     | _ => none
   | "(" :: "fn" :: n :: "(" :: "wheres" :: rest => do
     let n ← n.toNat?
     let (ws, rest) ← parseList st (rest.length + 1) rest
     let (e, rest) ← parseP st (rest.length + 1) rest
     match rest with
-    | ")" :: rest => pure (.fn ⟨n, ws, e⟩, rest)
+    | ")" :: rest => pure (some (.fn ⟨n, ws, e⟩), rest)
     | _ => none
   | "(" :: "fn" :: n :: rest => do
     let n ← n.toNat?
     let (e, rest) ← parseP st (rest.length + 1) rest
     match rest with
-    | ")" :: rest => pure (.fn ⟨n, [], e⟩, rest)
+    | ")" :: rest => pure (some (.fn ⟨n, [], e⟩), rest)
     | _ => none
   | _ => none
 
-def parseProg (st : St) : Nat → List String → Option (List (PStmt Float))
+def parseProg (st : St) : Nat → List String → Option (List (Option (PStmt Float)))
   | 0, _ => none
   | _, [] => some []
   | fuel + 1, toks => do
@@ -143,6 +154,7 @@ def showElem (st : St) : PVal Float → String
   | .q x => "(" ++ showQ st x ++ ")"
   | .b _ => "bool"
   | .list vs => "List<" ++ showElems st vs ++ ">"
+  | .struct vs => "Struct{" ++ showElems st vs ++ "}"
 def showElems (st : St) : List (PVal Float) → String
   | [] => ""
   | [v] => showElem st v
@@ -153,6 +165,7 @@ def showPVal (st : St) : PVal Float → String
   | .q x => showQ st x
   | .b _ => "bool"
   | .list vs => "List<" ++ showElems st vs ++ ">"
+  | .struct vs => "Struct{" ++ showElems st vs ++ "}"
 
 def showPErr : PErr → String
   | .q .incompatible => "err incompatible"
@@ -168,13 +181,15 @@ def driverFuel : Nat := 100000
 
 /-- runs the definitions one after the other (exactly `runProg`, keeping the values defined before a failure
 for the answer line) -/
-def runShow (st : St) : List (PStmt Float) → PState Float → List String → List String
+def runShow (st : St) : List (Option (PStmt Float)) → PState Float → List String → List String
   | [], _, acc => acc.reverse
-  | .letv e :: rest, ps, acc =>
+  -- a struct definition changes nothing at run time
+  | none :: rest, ps, acc => runShow st rest ps ("struct" :: acc)
+  | some (.letv e) :: rest, ps, acc =>
     match evalP st.tbl ps.fns ps.glob driverFuel [] e with
     | .ok v => runShow st rest { ps with glob := ps.glob ++ [v] } (showPVal st v :: acc)
     | .error err => (showPErr err :: acc).reverse
-  | .fn d :: rest, ps, acc => runShow st rest { ps with fns := ps.fns ++ [d] } ("fn" :: acc)
+  | some (.fn d) :: rest, ps, acc => runShow st rest { ps with fns := ps.fns ++ [d] } ("fn" :: acc)
 
 def stepProg (st : St) (line : String) : St × String :=
   if line.startsWith "mprog " then
